@@ -77,88 +77,95 @@ def check(ctx):
     ctx.floor("Q2", 12)
 
 
-def table(ctx, tc, units):
+def resolve_table(tc):
+    """{key: converter function name} of _time_conversion_functions, for the idioms: dict display of names;
+    {f.__name__: f for f in <tuple/list of names>}"""
     tab = tc.assigns.get("_time_conversion_functions")
-    if not isinstance(tab, ast.Dict):
-        raise AnalysisError("_time_conversion_functions is no longer a dict display")
-    seen = set()
-    for k, v in zip(tab.keys, tab.values):
-        if not isinstance(k, ast.Constant):
-            raise AnalysisError("non-literal key in _time_conversion_functions")
-        ok = isinstance(v, ast.Name) and v.id == k.value
-        seen.add(k.value)
-        ctx.ob("Q2", ok=ok, distinct=k.value)
+    if isinstance(tab, ast.Dict) and all(isinstance(k, ast.Constant) for k in tab.keys):
+        return {k.value: (v.id if isinstance(v, ast.Name) else ast.unparse(v)) for k, v in zip(tab.keys, tab.values)}, tab
+    if isinstance(tab, ast.DictComp) and len(tab.generators) == 1 and not tab.generators[0].ifs and isinstance(tab.generators[0].target, ast.Name):
+        var = tab.generators[0].target.id
+        it = tab.generators[0].iter
+        if isinstance(it, ast.Name) and it.id in tc.assigns:
+            it = tc.assigns[it.id]
+        if ast.unparse(tab.key) == f"{var}.__name__" and ast.unparse(tab.value) == var and isinstance(it, (ast.Tuple, ast.List)) and all(isinstance(e, ast.Name) for e in it.elts):
+            return {e.id: e.id for e in it.elts}, tab
+    raise AnalysisError("_time_conversion_functions is built in a way Q2 does not know (neither a dict display nor {f.__name__: f for f in (...)}); re-read needed")
+
+
+def table(ctx, tc, units):
+    mapping, tab = resolve_table(tc)
+    for k, v in mapping.items():
+        ok = v == k and v in tc.functions
+        ctx.ob("Q2", ok=ok, distinct=k)
         if not ok:
-            ctx.violation("Q2", f"table|{k.value}|{ast.unparse(v)}", tc.loc(k), f"table entry {k.value!r} maps to {ast.unparse(v)}, not to the converter of that name")
+            ctx.violation("Q2", f"table|{k}|{v}", tc.loc(tab), f"table entry {k!r} maps to {v}, not to the converter of that name")
     for a, b in itertools.permutations(units, 2):
-        if f"{a}_to_{b}" not in seen:
+        if f"{a}_to_{b}" not in mapping:
             ctx.ob("Q2", ok=False, distinct=f"{a}_to_{b}")
             ctx.violation("Q2", f"table|{a}_to_{b}|absent", tc.loc(tab), f"table has no entry {a}_to_{b}")
-    # creation site
-    cf = None
+    # ---- creation site: where the table is indexed with an f-string (possibly inside a small helper)
+    site = None
     for fn in tc.functions.values():
         for n in ast.walk(fn):
             if isinstance(n, ast.Subscript) and isinstance(n.value, ast.Name) and n.value.id == "_time_conversion_functions" and isinstance(n.slice, ast.JoinedStr):
-                cf = (fn, n)
-    if cf is None:
+                site = (fn, n)
+    if site is None:
         raise AnalysisError("creation site indexing _time_conversion_functions with an f-string not found")
-    fn, sub = cf
-    js = sub.slice
-    parts = []
-    for v in js.values:
-        parts.append(v.value if isinstance(v, ast.Constant) else ("{" + ast.unparse(v.value) + "}"))
-    # which local is the source unit / the missing unit?
-    src_unit = miss_unit = base = agg = None
+    sfn, sub = site
+    parts = [v.value if isinstance(v, ast.Constant) else ("{" + ast.unparse(v.value) + "}") for v in sub.slice.values]
+    creators = [f for f in tc.functions.values() if any(isinstance(n, ast.Call) and ".group(" in ast.unparse(n) and "time_unit" in ast.unparse(n) for n in ast.walk(f))]
+    if len(creators) != 1:
+        raise AnalysisError("creation function of time conversions (the one reading match.group('time_unit')) not recognised")
+    fn = creators[0]
+    conv_expr = sub  # expression that yields the converter inside the creation function
+    if sfn is not fn:
+        hparams = [a.arg for a in sfn.args.args]
+        calls = [n for n in ast.walk(fn) if isinstance(n, ast.Call) and isinstance(n.func, ast.Name) and n.func.id == sfn.name]
+        if len(calls) != 1:
+            raise AnalysisError(f"helper {sfn.name} is not called exactly once from the creation function")
+        c = calls[0]
+        bound = {p: ast.unparse(a) for p, a in zip(hparams, c.args)}
+        bound.update({kw.arg: ast.unparse(kw.value) for kw in c.keywords})
+        parts = ["{" + bound.get(p[1:-1], p[1:-1]) + "}" if p.startswith("{") else p for p in parts]
+        conv_expr = c
+    src_unit = base = agg = None
     for n in walk_own(fn):
         if isinstance(n, ast.Assign) and isinstance(n.targets[0], ast.Name):
             t = ast.unparse(n.value)
-            if ".group('time_unit')" in t or '.group("time_unit")' in t:
+            if ".group('time_unit')" in t:
                 src_unit = n.targets[0].id
-            if ".group('base_name')" in t or '.group("base_name")' in t:
+            if ".group('base_name')" in t:
                 base = n.targets[0].id
-            if ".group('aggregation')" in t or '.group("aggregation")' in t:
+            if ".group('aggregation')" in t:
                 agg = n.targets[0].id
-    loop = None
-    for n in walk_own(fn):
-        if isinstance(n, ast.For) and sub in list(ast.walk(n)) and isinstance(n.target, ast.Name):
-            loop = n
-            miss_unit = n.target.id
-    if None in (src_unit, miss_unit, base, agg):
+    loops = [n for n in walk_own(fn) if isinstance(n, ast.For) and conv_expr in list(ast.walk(n)) and isinstance(n.target, ast.Name)]
+    if None in (src_unit, base, agg) or len(loops) != 1:
         raise AnalysisError("creation site of time conversions: source/missing unit variables not recognised")
+    loop = loops[0]
+    miss_unit = loop.target.id
     ok = parts == ["{" + src_unit + "}", "_to_", "{" + miss_unit + "}"]
     ctx.ob("Q2", ok=ok, distinct="lookup-key")
     if not ok:
         ctx.violation("Q2", "creation|lookup-key|" + "".join(parts), tc.loc(sub), f"converter looked up as {''.join(parts)}; must be {{{src_unit}}}_to_{{{miss_unit}}} (source unit first)")
-    # the loop iterates over all units except the source unit
-    it = ast.unparse(loop.iter)
-    la = {n.targets[0].id: n.value for n in walk_own(fn) if isinstance(n, ast.Assign) and isinstance(n.targets[0], ast.Name)}
-    itv = la.get(it)
-    ok = isinstance(itv, ast.ListComp) and len(itv.generators) == 1 and len(itv.generators[0].ifs) == 1 and ast.unparse(itv.generators[0].ifs[0]) in (
-        f"{itv.generators[0].target.id} != {src_unit}", f"{src_unit} != {itv.generators[0].target.id}", f"not {itv.generators[0].target.id} == {src_unit}")
-    ctx.ob("Q2", ok=ok, distinct="missing-units")
-    if not ok:
-        ctx.violation("Q2", "creation|missing-units", tc.loc(loop), f"loop over `{it}` is not 'all units except the source unit'")
     # new name
-    nn = None
-    for n in ast.walk(loop):
-        if isinstance(n, ast.Assign) and isinstance(n.value, ast.JoinedStr) and isinstance(n.targets[0], ast.Name):
-            nn = n
-    if nn is None:
+    nn = [n for n in ast.walk(loop) if isinstance(n, ast.Assign) and isinstance(n.value, ast.JoinedStr) and isinstance(n.targets[0], ast.Name)]
+    if len(nn) != 1:
         raise AnalysisError("creation site: name of the derived node not recognised")
+    nn = nn[0]
     nparts = [v.value if isinstance(v, ast.Constant) else "{" + ast.unparse(v.value) + "}" for v in nn.value.values]
     ok = nparts == ["{" + base + "}", "{" + miss_unit + "}", "{" + agg + "}"]
     ctx.ob("Q2", ok=ok, distinct="new-name")
     if not ok:
         ctx.violation("Q2", "creation|new-name|" + "".join(nparts), tc.loc(nn), f"derived node is named {''.join(nparts)}; must be {{{base}}}{{{miss_unit}}}{{{agg}}}")
-    # call of the factory: (source name, info, converter) and stored under the new name
+    # factory call: (source name, info, converter) stored under the new name
     name_param = fn.args.args[0].arg
-    fac = None
-    for n in ast.walk(loop):
-        if isinstance(n, ast.Assign) and isinstance(n.targets[0], ast.Subscript) and isinstance(n.value, ast.Call) and isinstance(n.value.func, ast.Name) and n.value.func.id in tc.functions:
-            fac = n
-    if fac is None:
+    fac = [n for n in ast.walk(loop) if isinstance(n, ast.Assign) and isinstance(n.targets[0], ast.Subscript) and isinstance(n.value, ast.Call) and isinstance(n.value.func, ast.Name) and n.value.func.id in tc.functions and n.value.func.id != sfn.name]
+    if len(fac) != 1:
         raise AnalysisError("creation site: factory call not recognised")
-    ok = ast.unparse(fac.targets[0].slice) == nn.targets[0].id and fac.value.args and ast.unparse(fac.value.args[0]) == name_param and any(a is sub or sub in list(ast.walk(a)) for a in fac.value.args)
+    fac = fac[0]
+    allargs = list(fac.value.args) + [kw.value for kw in fac.value.keywords]
+    ok = ast.unparse(fac.targets[0].slice) == nn.targets[0].id and allargs and ast.unparse(allargs[0]) == name_param and any(a is conv_expr or conv_expr in list(ast.walk(a)) for a in allargs)
     ctx.ob("Q2", ok=ok, distinct="factory-call")
     if not ok:
         ctx.violation("Q2", "creation|factory-call", tc.loc(fac), f"`{ast.unparse(fac)[:100]}` does not store converter(source column {name_param}) under the derived name")
@@ -166,13 +173,17 @@ def table(ctx, tc, units):
     ff = tc.functions[fac.value.func.id]
     fparams = [a.arg for a in ff.args.args]
     inner = [n for n in ff.body if isinstance(n, ast.FunctionDef)]
-    if len(inner) != 1:
+    if len(inner) != 1 or len(fparams) < 3:
         raise AnalysisError("factory of derived time functions: inner function not recognised")
     inn = inner[0]
     iarg = [a.arg for a in inn.args.args]
+    # which factory parameter receives the converter?
+    conv_idx = next(i for i, a in enumerate(allargs) if a is conv_expr or conv_expr in list(ast.walk(a)))
+    conv_param = fparams[conv_idx] if conv_idx < len(fparams) else None
+    ccalls = [n for n in ast.walk(inn) if isinstance(n, ast.Call) and isinstance(n.func, ast.Name) and n.func.id == conv_param]
+    ok = len(iarg) == 1 and len(ccalls) == 1 and [ast.unparse(a) for a in ccalls[0].args] == iarg and not ccalls[0].keywords
     rets = [n for n in ast.walk(inn) if isinstance(n, ast.Return)]
-    conv_param = fparams[2] if len(fparams) > 2 else None
-    ok = len(iarg) == 1 and len(rets) == 1 and ast.unparse(rets[0].value) == f"{conv_param}({iarg[0]})"
+    ok = ok and len(rets) == 1 and (rets[0].value is ccalls[0] or (isinstance(rets[0].value, ast.Name) and any(isinstance(x, ast.Assign) and x.value is ccalls[0] and ast.unparse(x.targets[0]) == rets[0].value.id for x in ast.walk(inn)))) if ccalls else False
     ctx.ob("Q2", ok=ok, distinct="factory-body")
     if not ok:
         ctx.violation("Q2", "factory|body", tc.loc(inn), f"derived function returns `{ast.unparse(rets[0].value) if rets else '?'}`, expected {conv_param}({iarg[0] if iarg else 'x'})")
@@ -243,17 +254,22 @@ def conversion_precedence(ctx, tc):
 
 
 def pattern(ctx, repo, tc):
-    fn = None
+    calls = [n for n in ast.walk(tc.tree) if isinstance(n, ast.Call) and ast.unparse(n.func) == "re.compile" and n.args and isinstance(n.args[0], (ast.JoinedStr, ast.Name))]
+    call = None
+    la = dict(tc.assigns)
     for f in tc.functions.values():
-        for n in ast.walk(f):
-            if isinstance(n, ast.Call) and ast.unparse(n.func) == "re.compile" and n.args and isinstance(n.args[0], ast.JoinedStr):
-                fn = (f, n)
-    if fn is None:
+        for n in walk_own(f):
+            if isinstance(n, ast.Assign) and isinstance(n.targets[0], ast.Name):
+                la.setdefault(n.targets[0].id, n.value)
+    for c in calls:
+        a0 = c.args[0]
+        if isinstance(a0, ast.Name) and isinstance(la.get(a0.id), ast.JoinedStr):
+            a0 = la[a0.id]
+        if isinstance(a0, ast.JoinedStr):
+            call, js = c, a0
+    if call is None:
         raise AnalysisError("name pattern (re.compile of an f-string) not found in time_conversion.py")
-    f, call = fn
-    js = call.args[0]
     parts = [v.value if isinstance(v, ast.Constant) else "{" + ast.unparse(v.value) + "}" for v in js.values]
-    la = {n.targets[0].id: n.value for n in walk_own(f) if isinstance(n, ast.Assign) and isinstance(n.targets[0], ast.Name)}
     consts = [p for p in parts if not p.startswith("{")]
     ok = consts == ["(?P<base_name>.*_)(?P<time_unit>[", "])(?P<aggregation>", ")?"]
     ctx.ob("Q4", ok=ok, distinct="pattern-shape")
@@ -276,15 +292,22 @@ def pattern(ctx, repo, tc):
                 stack += [m.id for m in ast.walk(v) if isinstance(m, ast.Name)]
         return False
 
-    ok = len(vars_) == 2 and derives(vars_[0], "SUPPORTED_TIME_UNITS") and derives(vars_[1], "SUPPORTED_GROUPINGS")
+    def expr_derives(txt, table):
+        try:
+            e = ast.parse(txt, mode="eval")
+        except SyntaxError:
+            return False
+        return any(derives(m.id, table) for m in ast.walk(e) if isinstance(m, ast.Name))
+
+    ok = len(vars_) == 2 and expr_derives(vars_[0], "SUPPORTED_TIME_UNITS") and expr_derives(vars_[1], "SUPPORTED_GROUPINGS")
     ctx.ob("Q4", ok=ok, distinct="pattern-tables")
     if not ok:
         ctx.violation("Q4", "pattern|tables", tc.loc(call), f"pattern variables {vars_} are not derived from SUPPORTED_TIME_UNITS / SUPPORTED_GROUPINGS")
     pv = None
-    for n in walk_own(f):
-        if isinstance(n, ast.Assign) and n.value is call:
+    for n in ast.walk(tc.tree):
+        if isinstance(n, ast.Assign) and n.value is call and isinstance(n.targets[0], ast.Name):
             pv = n.targets[0].id
-    uses = [n for n in ast.walk(f) if isinstance(n, ast.Call) and isinstance(n.func, ast.Attribute) and isinstance(n.func.value, ast.Name) and n.func.value.id == pv]
+    uses = [n for n in ast.walk(tc.tree) if isinstance(n, ast.Call) and isinstance(n.func, ast.Attribute) and isinstance(n.func.value, ast.Name) and n.func.value.id == pv]
     ok = bool(uses) and all(u.func.attr == "fullmatch" for u in uses)
     ctx.ob("Q4", ok=ok, distinct="fullmatch")
     if not ok:
